@@ -27,6 +27,7 @@ type scnProgram struct {
 	cleanups map[int][]string
 	log      *evlog
 	errAlt   int
+	panicAlt int
 }
 
 func splitProg(s string) []string {
@@ -66,7 +67,19 @@ func (p *scnProgram) exec(t *f1testing.T, acts []string) {
 		case a == "Q":
 			t.Require().True(false, "scripted assertion")
 		case a == "Pe":
-			panic(errors.New("scripted panic"))
+			// "panicked with any value": the error values rotate through the shapes a real scenario can throw
+			p.panicAlt++
+			switch p.panicAlt % 4 {
+			case 0:
+				panic(errors.New("scripted panic"))
+			case 1:
+				panic(matchesAnything{}) // an error whose Is method answers true for every target
+			case 2:
+				var e *nilReceiverError // a typed nil pointer: Error() dereferences the receiver
+				panic(e)
+			default:
+				panic(fmt.Errorf("wrapped: %w", errors.New("scripted panic")))
+			}
 		case a == "Ps":
 			panic("scripted panic")
 		case a == "Pv":
@@ -88,6 +101,17 @@ func (p *scnProgram) exec(t *f1testing.T, acts []string) {
 		}
 	}
 }
+
+// matchesAnything is an error that claims to be every other error (errors.Is(err, x) is true for any x).
+type matchesAnything struct{}
+
+func (matchesAnything) Error() string   { return "an error that matches anything" }
+func (matchesAnything) Is(error) bool   { return true }
+
+// nilReceiverError's Error method does not guard against a nil receiver.
+type nilReceiverError struct{ msg string }
+
+func (e *nilReceiverError) Error() string { return e.msg }
 
 type gathered struct{ succ, fail, dropped, setupSucc, setupFail uint64 }
 
